@@ -254,7 +254,7 @@ func (c *Ctx) lexStateModel(fd *ast.FuncDecl) *lexStateModel {
 		}
 		// state functions are returned, not called
 		sig := fn.Type().(*types.Signature)
-		if st := namedType(c.Bcl, "stateFn"); st != nil && sig.Recv() == nil && types.Identical(sig, st.Underlying()) {
+		if scheme := c.lexStates(); scheme != nil && sig.Recv() == nil && types.Identical(sig, scheme.sig) {
 			return false
 		}
 		return true
@@ -291,6 +291,10 @@ func (c *Ctx) lexStateModel(fd *ast.FuncDecl) *lexStateModel {
 				ap := pay(after)
 				switch {
 				case after.Term == tReturn:
+					if in.depth > 1 {
+						// the loop is in a helper: returning from it leaves the loop, the state function goes on
+						ap.log = append(ap.log, "}exit")
+					}
 					ap.inLoop--
 					out = append(out, after)
 				case after.Term == tBreak && after.Label == "":
@@ -325,13 +329,7 @@ func (c *Ctx) lexStateModel(fd *ast.FuncDecl) *lexStateModel {
 	res := in.inlineBody(st, fd.Type, fd.Body, fd.Recv, nil)
 	for _, r := range res {
 		p := r.st.P.(*lexPay)
-		ret := "?"
-		switch {
-		case r.v.K == vFunc && r.v.FnObj != nil:
-			ret = funcName(r.v.FnObj)
-		case r.v.K == vTag && r.v.Tag == "nil":
-			ret = "nil"
-		}
+		ret := c.stateOfValue(r.v)
 		m.Paths = append(m.Paths, lexPath{Log: p.log, Ret: ret})
 	}
 	m.Undecided = in.Undecided
